@@ -125,11 +125,15 @@ def NonLiteral : Layer → Prop
   | .matrix s _ _ => s ≠ .intLiteral ∧ s ≠ .floatLiteral
   | _ => True
 
-/-- every parameter is a concrete type or a bare type template parameter `T` -/
-def SimpleTemplate (c : TCand) : Prop :=
+/-- the declaration compiles as far as its template parameters go: every template parameter a parameter type mentions
+    (`T`, `vector<T, n>`, `matrix<T, x, y>`) is one of the declared ones, of either kind.  (`T p[n]` is left out only
+    because the correspondence protocol cannot name an array of a non-scalar, which the model reports as `unsupported`.) -/
+def ScopedTemplate (c : TCand) : Prop :=
   ∀ p ∈ c.params, match p.pat with
     | .conc _ => True
-    | .tvar k => c.tkinds[k]? = some TKind.type
-    | _ => False
+    | .tvar k => k < c.tkinds.length
+    | .tvec k _ => k < c.tkinds.length
+    | .tmat k _ _ => k < c.tkinds.length
+    | .tarr _ _ => False
 
 end RsslVerif.Spec.Overload
